@@ -171,6 +171,12 @@ mut("M29", "C18", "the limit is read from the environment's class (an instance a
 mut("M30", "C17", "the descendant segment reads the mode from the environment's class (an object on which the user switched it on walks in document order: permitted orderings never produced)", [
     (P + "segments.py", "            self._nondeterministic_visit if self.env.nondeterministic else self._visit", "            self._nondeterministic_visit if type(self.env).nondeterministic else self._visit"),
 ])
+mut("M31", "C20", "index errors get a second line (a hint) on standard error", [
+    (P + "cli.py", '        sys.stderr.write(f"index error: {err}\\n")', '        sys.stderr.write(f"index error: {err}\\nhint: indices must be within the I-JSON range\\n")'),
+])
+mut("M32", "C20", "the diagnostic for an undecodable document quotes the offending text, line breaks included", [
+    (P + "cli.py", '        sys.stderr.write(f"target document json decode error: {err}\\n")', '        sys.stderr.write(f"target document json decode error: {err}: {getattr(err, \'doc\', \'\')[:40]}\\n")'),
+])
 
 
 def apply_edits(root: str, edits: List[Tuple[str, str, str]]) -> None:
